@@ -145,7 +145,11 @@ def run_idp(case):
 
 # ------------------------------------------------------------------ SP half
 FAULTS = ['none', 'content-edit', 'wrong-key', 'unsigned', 'cond-expired', 'scd-expired', 'session-expired', 'not-yet-valid', 'foreign-audience', 'two-restrictions',
-          'scd-irt-other', 'scd-irt-unknown', 'scd-irt-absent', 'irt-unknown', 'foreign-recipient', 'xsw', 'order-violation', 'no-subject-confirmation', 'status-responder']
+          'scd-irt-other', 'scd-irt-unknown', 'scd-irt-absent', 'irt-unknown', 'foreign-recipient', 'xsw', 'order-violation', 'no-subject-confirmation', 'status-responder',
+          # a second, non-bearer confirmation that names another / an unknown request (the solicitation check looks at every confirmation)
+          'nonbearer-irt-other', 'nonbearer-irt-unknown',
+          # the only confirmation is a sender-vouches one naming another outstanding request
+          'sender-vouches-irt-other']
 
 
 def sp_strategy():
@@ -192,6 +196,12 @@ def run_sp(case):
         a['subject']['confirmations'][0]['data']['in_response_to'] = 'id-req-nobody'
     elif f == 'scd-irt-absent':
         a['subject']['confirmations'][0]['data']['in_response_to'] = None
+    elif f in ('nonbearer-irt-other', 'nonbearer-irt-unknown'):
+        a['subject']['confirmations'] = a['subject']['confirmations'] + [
+            {'method': 'urn:oasis:names:tc:SAML:2.0:cm:sender-vouches', 'data': {'in_response_to': 'id-req-2' if f.endswith('other') else 'id-req-nobody'}}]
+    elif f == 'sender-vouches-irt-other':
+        a['subject']['confirmations'][0]['method'] = 'urn:oasis:names:tc:SAML:2.0:cm:sender-vouches'
+        a['subject']['confirmations'][0]['data']['in_response_to'] = 'id-req-2'
     elif f == 'irt-unknown':
         r['in_response_to'] = 'id-req-nobody'
         a['subject']['confirmations'][0]['data']['in_response_to'] = 'id-req-nobody'
